@@ -297,6 +297,12 @@ class ExprMixin:
             return base[lo:hi]
         if isinstance(base, (list, tuple)):
             base = self.as_slist(list(base))
+        from .stmt import Iter
+        if isinstance(base, Iter) and base.view[0] == "indexed" and getattr(base, "is_range", False):
+            # a slice of range(a, b) is the range of the selected elements (Python's clamping of negative / oversized bounds below)
+            _, n_, elem = base.view
+            k_ = z3.Int(fresh_name("rg"))
+            base = SList(TInt, n_, z3.Lambda([k_], to_term(elem(k_))))
         if isinstance(base, SList):
             n = base.n
             lo_t = z3.IntVal(0) if lo is None else to_term(lo)
